@@ -4,6 +4,8 @@
 #ifndef VERIF_COMMON_H
 #define VERIF_COMMON_H
 
+#include <thread>
+#include <cstdlib>
 #include "rat.h"
 #include "PromoteTraits.h"
 
@@ -119,9 +121,12 @@ inline std::string run_line (const OpTable& ops, const std::string& line)
 
 inline int run_stream (const OpTable& ops)
 {
-  std::string line;
+  std::string line; const bool threaded = getenv ("EPSIC_HARNESS_THREAD") != 0;
   while (std::getline (std::cin, line)) {
     if (line.empty() || line[0] == '#') { std::cout << line << "\n"; continue; }
+    // thread mode (the runner's thread pass): every line is executed on a thread of its own, started and joined here, so that
+    // nothing runs concurrently; the answers must be those of the main thread
+    if (threaded) { std::string out; std::thread th ([&]() { out = run_line (ops, line); }); th.join (); std::cout << out << "\n"; continue; }
     std::cout << run_line (ops, line) << "\n";
   }
   return 0;
